@@ -1,4 +1,5 @@
 use crate::ast::{BinaryOp, Expr, PostfixOp, RecordEntry, RecordKey, SpannedExpr, UnaryOp};
+use crate::formatter::protect_leading_minus;
 use crate::precedence::{Assoc, operator_info};
 use crate::values::{LambdaArg, SerializableValue};
 use indexmap::IndexMap;
@@ -90,13 +91,16 @@ pub fn expr_to_source(spanned_expr: &SpannedExpr) -> String {
             return_expr,
         } => {
             let mut result = "do {".to_string();
-            for stmt in statements {
+            for (i, stmt) in statements.iter().enumerate() {
                 // Leading comments
                 for comment in &stmt.leading {
                     result.push_str(&format!("\n  {}", comment));
                 }
                 // Expression
-                result.push_str(&format!("\n  {}", expr_to_source(&stmt.node)));
+                result.push_str(&format!(
+                    "\n  {}",
+                    protect_leading_minus(expr_to_source(&stmt.node), i == 0)
+                ));
                 // Trailing comment
                 if let Some(trailing) = &stmt.trailing {
                     result.push_str(&format!("  {}", trailing));
@@ -413,7 +417,7 @@ pub fn expr_to_source_with_scope(
             return_expr,
         } => {
             let mut result = "do {".to_string();
-            for stmt in statements {
+            for (i, stmt) in statements.iter().enumerate() {
                 // Leading comments
                 for comment in &stmt.leading {
                     result.push_str(&format!("\n  {}", comment));
@@ -421,7 +425,7 @@ pub fn expr_to_source_with_scope(
                 // Expression
                 result.push_str(&format!(
                     "\n  {}",
-                    expr_to_source_with_scope(&stmt.node, scope)
+                    protect_leading_minus(expr_to_source_with_scope(&stmt.node, scope), i == 0)
                 ));
                 // Trailing comment
                 if let Some(trailing) = &stmt.trailing {
